@@ -8,6 +8,7 @@ import (
 	"sort"
 	"strings"
 
+	"golang.org/x/text/unicode/norm"
 	"verif/internal/fw"
 	"verif/internal/h"
 	"verif/internal/model"
@@ -23,8 +24,13 @@ type c18Out struct {
 	status       int
 }
 
+// c18Fuel is the fuel of transformed runs: a generous multiple of what the
+// original program spent, so that a transformation that makes a program
+// diverge is recognised quickly.
+var c18Fuel int64 = 3_000_000
+
 func c18Run(c *fw.Ctx, src, stdin string) (c18Out, h.Outcome, bool) {
-	o := h.RunFile(src, h.Opts{Stdin: stdin, StdinMode: 1, Fuel: 3_000_000})
+	o := h.RunFile(src, h.Opts{Stdin: stdin, StdinMode: 1, Fuel: c18Fuel})
 	c.Eval(src, true)
 	if o.Panic != "" || o.Diverged {
 		// abnormal ends are C07's business; a transformation must still not change them
@@ -105,7 +111,13 @@ var renameSchemes = []struct {
 	{"to-latin", func(n string) string { return "ren_" + latinize(n) + "_z" }},
 	{"combining-marks", func(n string) string { return "é" + n + "ে়" }},
 	{"keyword-prefix", func(n string) string { return model.KwIf + n + model.KwVar }},
+	// spellings that Unicode normalisation would change: precomposed Bangla letters that NFC
+	// always decomposes, and a decomposed Latin letter that NFC composes
+	{"nfc-unstable-bangla", func(n string) string { return "\u09AC\u09DC" + n + "\u09DF\u09DD" }},
+	{"nfd-latin", func(n string) string { return "e\u0301" + n + "o\u0308" }},
 }
+
+func normNFC(s string) string { return norm.NFC.String(s) }
 
 func latinize(n string) string {
 	var sb strings.Builder
@@ -338,7 +350,16 @@ func C18(c *fw.Ctx) {
 		if ci%c.NShards != c.Shard {
 			continue
 		}
-		ref, _, _ := c18Run(c, it.src, it.stdin)
+		if c.ViolatingCases() > 3000 {
+			c.R.Exhaustive = false
+			c.Note("stopped early: more than 3000 violating cases in this shard")
+			break
+		}
+		c18Fuel = 3_000_000
+		ref, refO, _ := c18Run(c, it.src, it.stdin)
+		if !refO.Diverged {
+			c18Fuel = 20*refO.FuelSpent + 20_000
+		}
 		lx, ok := lexProgram(it.src)
 		if !ok {
 			c.Skip("corpus program with a lexical error")
@@ -347,8 +368,10 @@ func C18(c *fw.Ctx) {
 		check := func(fam, how, tsrc string, unrename map[string]string) {
 			got, o, _ := c18Run(c, tsrc, it.stdin)
 			for nw, old := range unrename {
-				got.stdout = strings.ReplaceAll(got.stdout, nw, old)
-				got.diag = strings.ReplaceAll(got.diag, nw, old)
+				for _, form := range []string{nw, normNFC(nw)} {
+					got.stdout = strings.ReplaceAll(got.stdout, form, old)
+					got.diag = strings.ReplaceAll(got.diag, form, old)
+				}
 			}
 			c.Count("transformed_" + fam)
 			if got != ref {
@@ -421,6 +444,58 @@ func C18(c *fw.Ctx) {
 					un[sc.f(name)] = name
 				}
 				check("rename-"+sc.name, "all user identifiers", lx.rebuild(nil, repl), un)
+			}
+		}
+		// distinct identifiers renamed to canonically equivalent but distinct spellings stay distinct
+		if len(ids) > 1 {
+			names := map[string]bool{}
+			for _, nme := range ids {
+				names[nme] = true
+			}
+			var sorted []string
+			for nme := range names {
+				sorted = append(sorted, nme)
+			}
+			sort.Strings(sorted)
+			newName := map[string]string{}
+			for i, nme := range sorted {
+				tail := "\u09DF"
+				if i%2 == 1 {
+					tail = "\u09AF\u09BC"
+				}
+				newName[nme] = fmt.Sprintf("\u09A8\u09BE\u09AE%d%s", i/2, tail)
+			}
+			repl := map[int]string{}
+			un := map[string]string{}
+			for ti, nme := range ids {
+				repl[ti] = newName[nme]
+			}
+			// undo the renaming in the output: the longer (decomposed) spellings first
+			tsrc := lx.rebuild(nil, repl)
+			got, o, _ := c18Run(c, tsrc, it.stdin)
+			var news []string
+			for nme, nw := range newName {
+				un[nw] = nme
+				news = append(news, nw)
+			}
+			sort.Slice(news, func(i, j int) bool { return len(news[i]) > len(news[j]) })
+			for _, nw := range news {
+				// printing goes through NFC: undo on the normalised spelling as well
+				for _, form := range []string{nw, normNFC(nw)} {
+					got.stdout = strings.ReplaceAll(got.stdout, form, un[nw])
+					got.diag = strings.ReplaceAll(got.diag, form, un[nw])
+				}
+			}
+			c.Count("transformed_rename-equivalent-pairs")
+			// names that normalise to the same text cannot be told apart in NFC output: compare only when unambiguous
+			ambiguous := false
+			for i := 0; i+1 < len(sorted); i += 2 {
+				if strings.Contains(ref.stdout+ref.diag, sorted[i]) || strings.Contains(ref.stdout+ref.diag, sorted[i+1]) {
+					ambiguous = true
+				}
+			}
+			if !ambiguous && got != ref {
+				report(it, "rename-equivalent-pairs", "all user identifiers", tsrc, ref, got, o)
 			}
 		}
 		// (e), (f): tree level
